@@ -645,12 +645,30 @@ def r5(ctx, F, rule, sfx):
     ctx.check(rule, 'vectors-restored%s' % sfx, ok, 'boundary pops on the retry path: %d; points pushes: %d' % (len(bpop), len(ppush)), 'boundary.pop() after the retry, points.push(point) before returning', w, key_extra='restore')
     # entry: starts with an empty boundary and all points
     eb = F.body('<bounding_sphere::Welzl as bounding_sphere::BoundingSphereSolver>::bounding_sphere')
-    ip2 = I.Interp(F, no_inline=[wb['path']])
-    ip2.call_body(eb, [I.Sym(nf.sym_atom('points'), '&[glam::DVec3]')])
+    ip2 = I.Interp(F, no_inline=[wb['path']] + [x['path'] for x in F.bodies if x['path'].endswith('Sphere::from_boundary_points')])
+    rv2, rets2 = ip2.call_body(eb, [I.Sym(nf.sym_atom('points'), '&[glam::DVec3]')])
     ctx.evaluations += ip2.evaluations
     r0 = [e for e in ip2.events if e.callee == wb['path']]
-    ok = len(r0) == 1 and repr(r0[0].fargs[0]) == 'call:std::slice::<impl [T]>::to_vec(points)' and repr(r0[0].fargs[1]).replace(' ', '') == 'array{}'
+    empty_vec = lambda t: t.replace(' ', '') == 'array{}' or re.match(r'^call:std::vec::Vec(::<[^>]*>)?::(new|with_capacity)\(', t) is not None
+    ok = len(r0) == 1 and repr(r0[0].fargs[0]) == 'call:std::slice::<impl [T]>::to_vec(points)' and empty_vec(repr(r0[0].fargs[1]))
     ctx.check(rule, 'starts-from-all-points-and-empty-boundary%s' % sfx, ok, [repr(a)[:60] for a in r0[0].fargs] if r0 else 'no call', 'recursive(points.to_vec(), [])', where(eb), key_extra='entry')
+    # ... for EVERY input: no shortcut around the recursion (a set of <= 4 points is not the boundary of its own minimal sphere)
+    if r0:
+        unguarded = not r0[0].guard
+        leaves2 = [lf for _g, v, _s in rets2 for _cs, lf in cases(v)]
+        rets2 = [(None, lf, None) for lf in leaves2]
+        all_from_rec = all(I.vkey(I.frozen(v)) == I.vkey(I.frozen(r0[0].result)) for _g, v, _s in rets2)
+        if not unguarded and len(r0[0].guard) == 1:
+            # a shortcut for point sets that ARE the boundary of their minimal sphere whatever they are: 0, 1 or 2 points, handed to the k-point constructor
+            g = r0[0].guard[0]
+            small = g.op == 'cmp' and g.args[0] == '<' and isinstance(g.args[1], RF) and g.args[1].is_const() and g.args[1].const_value() <= 2 and repr(g.args[2]) == 'len(points)'
+            others = [v for _g, v, _s in rets2 if I.vkey(I.frozen(v)) != I.vkey(I.frozen(r0[0].result))]
+            direct = all(re.match(r'^call:geometry::Sphere::from_boundary_points\((points|call:std::slice::<impl \[T\]>::to_vec\(points\)|call:.*deref\(.*points.*\))\)$', repr(I.frozen(v))) for v in others)
+            if small and direct:
+                unguarded = all_from_rec = True
+        ctx.check(rule, 'every-input-goes-through-the-recursion%s' % sfx, unguarded and all_from_rec and len(rets2) >= 1,
+                  'recursion reached under %s; %d return path(s), all returning its result: %s' % ([repr(g)[:60] for g in r0[0].guard] or 'no condition', len(rets2), all_from_rec),
+                  'the exact solver returns the result of the recursion for every point set, unconditionally', where(eb), key_extra='shortcut')
 
 
 def r6(ctx, F, rule, sfx):
